@@ -65,6 +65,11 @@ CHECKS = {
    "Pair / line / diamond worlds run generated payment flows with asynchronous persistence; the ChannelManager is serialized at generated moments; a generated node crashes at a generated position (possibly again during recovery) and restarts from a generated earlier manager snapshot and, per channel, the durable monitor image or the latest written one; the world is then reconnected, payments resolved and the chain mined until every closed channel is resolved. Checked over the concatenated history: deserialization succeeds; channels whose monitor provably ran ahead of the manager are closed as OutdatedChannelManager, never resumed; the revocation rules hold across restarts; every broadcast is consensus-valid for the next block; PaymentSent is truthful, PaymentFailed is not reported while the HTLC is live, terminal events are never contradicted; a claim acknowledged to the recipient reaches PaymentSent at the sender. The enumerated part tries every crash point of each explored short flow (exhaustive over crash points of those flows, sampled over flows).",
    "Crash points are between harness operations (one or a few durable writes each), not inside a library call; liveness is decided at a bounded horizon (400 blocks); reorgs are not combined with restarts. One listed known finding (PaymentFailed after PaymentSent when restarting from a manager older than the fulfil with a monitor that already forgot the HTLC — documented by the library as a rare case); one defect of this family repaired in /repo.",
    "DESIGN.md §6 C10"),
+ "C08": ("netsim", "exploration",
+   "scenario-parametric property-based testing (generated offsets, delays, block arrival patterns and delivery styles around every deadline) with exhaustive cross products of boundary offsets in the thorough tier",
+   "Five scenario families on pair / line worlds whose numbers and schedules are generated: final-hop acceptance and claim around expiry - buffer (every offset -3..+3), forward admission around every CLTV / fee threshold, a silent / last-moment / on-chain-settling downstream peer with generated confirmation delays up to the library's stated maximum, a receiver holding a preimage with a dead upstream peer, and forwards stuck in the holding cell. Checked: nothing is shown claimable or forwarded inside the documented buffers (an upstream failure follows instead); claim_funds succeeds at every height below claim_deadline and the node has failed the payment itself from that height on; the holder commitment is first broadcast inside the documented window (not later, not before the trigger); the forwarder never ends with downstream fulfilled and upstream failed; upstream fail-back after a downstream timeout happens only after ANTI_REORG_DELAY confirmations and early enough for the upstream peer. The thorough tier enumerates all offset combinations (flagged exhaustive for that sub-space). Search, not proof.",
+   "Stays inside the library's stated bounds (confirmation within 18 blocks of the due height, no reorgs, constant fees); thresholds that are crate-private constants are restated in the harness and pinned at both sides of each boundary; MPP / intercept / trampoline timeouts are not generated.",
+   "DESIGN.md §6 C08"),
 }
 
 NOT_YET = {
